@@ -42,8 +42,8 @@ CONSTANTS Params,        \* set of LAParams records [lo, cm, wm, lm, bf, dv, at]
 
 ASSUME PG[1] = 0 /\ PG[2] = 0 /\ PG[3] = PG[4]
 
-VARIABLES P, wh, txt, page, bc, pc, k, cur, lines, emp, tl, bmap, bxs, tb, ord, nodes, heap, pl, dn, out
-vars == <<P, wh, txt, page, bc, pc, k, cur, lines, emp, tl, bmap, bxs, tb, ord, nodes, heap, pl, dn, out>>
+VARIABLES P, wh, tie, txt, page, bc, pc, k, cur, lines, emp, tl, bmap, bxs, tb, ord, nodes, heap, pl, dn, out
+vars == <<P, wh, tie, txt, page, bc, pc, k, cur, lines, emp, tl, bmap, bxs, tb, ord, nodes, heap, pl, dn, out>>
 
 NoneFlow == P.bf[2] = 0
 PosIn(s, x) == CHOOSE i \in 1..Len(s) : s[i] = x
@@ -69,22 +69,22 @@ Cursor(mv, b) ==
 
 BuildFirst == /\ pc = "build" /\ bc.n = 0 /\ Len(page) < MaxItems
               /\ \E f \in Firsts(P) : page' = Append(page, Item(f.bb, f.t)) /\ bc' = Cursor(f, f.bb)
-              /\ UNCHANGED <<P, wh, txt, pc, k, cur, lines, emp, tl, bmap, bxs, tb, ord, nodes, heap, pl, dn, out>>
+              /\ UNCHANGED <<P, wh, tie, txt, pc, k, cur, lines, emp, tl, bmap, bxs, tb, ord, nodes, heap, pl, dn, out>>
 BuildGlyph == /\ pc = "build" /\ bc.n > 0 /\ Len(page) < MaxItems
               /\ \E mv \in Moves(P) : /\ mv.m # "O"
                                       /\ page' = Append(page, Item(Place(mv), mv.t))
                                       /\ bc' = Cursor(mv, Place(mv))
-              /\ UNCHANGED <<P, wh, txt, pc, k, cur, lines, emp, tl, bmap, bxs, tb, ord, nodes, heap, pl, dn, out>>
+              /\ UNCHANGED <<P, wh, tie, txt, pc, k, cur, lines, emp, tl, bmap, bxs, tb, ord, nodes, heap, pl, dn, out>>
 BuildOther == /\ pc = "build" /\ Len(page) < MaxItems
               /\ \E mv \in Moves(P) : mv.m = "O"
               /\ page' = Append(page, [k |-> "o", bb |-> <<0, 0, 8, 8>>, t |-> "e"])
-              /\ UNCHANGED <<P, wh, txt, bc, pc, k, cur, lines, emp, tl, bmap, bxs, tb, ord, nodes, heap, pl, dn, out>>
+              /\ UNCHANGED <<P, wh, tie, txt, bc, pc, k, cur, lines, emp, tl, bmap, bxs, tb, ord, nodes, heap, pl, dn, out>>
 Transposed(b) == <<b[2], PG[3] - b[3], b[4], PG[3] - b[1]>>
 EndBuild == /\ pc = "build"
             /\ \E tr \in Trs : (tr => P.dv) /\ page' = IF tr THEN [i \in 1..Len(page) |-> [page[i] EXCEPT !.bb = Transposed(@)]]
                                               ELSE page
             /\ pc' = "split"
-            /\ UNCHANGED <<P, wh, txt, bc, k, cur, lines, emp, tl, bmap, bxs, tb, ord, nodes, heap, pl, dn, out>>
+            /\ UNCHANGED <<P, wh, tie, txt, bc, k, cur, lines, emp, tl, bmap, bxs, tb, ord, nodes, heap, pl, dn, out>>
 
 \* ------------------------------------------------------------------ emission of terminal states for the replay
 \* (printed by the action that completes the analysis, once per distinct completed analysis)
@@ -118,7 +118,7 @@ ColumnPage ==
 EmitDone(o) ==
   PrintT("@@" \o ToJson([page |-> page, p |-> P, wh |-> wh,
                          out |-> [i \in 1..Len(o) |-> OutEntry(o[i])],
-                         nb |-> Len(tb),
+                         nb |-> Len(tb), tie |-> tie,
                          colpage |-> (Len(tb) > 1 /\ ~NoneFlow /\ ColumnPage),
                          groups |-> IF NoneFlow \/ Len(nodes) = 0 THEN <<>> ELSE [i \in 1..Len(LiveSeq) |-> TreeOf(LiveSeq[i])]]))
 
@@ -126,21 +126,21 @@ EmitDone(o) ==
 \* LTFigure.analyze: nothing happens unless all_texts
 SkipFigure == /\ pc = "split" /\ wh = "figure" /\ ~P.at
               /\ out' = [i \in 1..Len(page) |-> [k |-> "item", i |-> i]] /\ pc' = "done" /\ EmitDone(out')
-              /\ UNCHANGED <<P, wh, txt, page, bc, k, cur, lines, emp, tl, bmap, bxs, tb, ord, nodes, heap, pl, dn>>
+              /\ UNCHANGED <<P, wh, tie, txt, page, bc, k, cur, lines, emp, tl, bmap, bxs, tb, ord, nodes, heap, pl, dn>>
 \* fsplit(isinstance LTChar); "if not textobjs: return"
 SplitText == /\ pc = "split" /\ (wh = "page" \/ P.at)
              /\ txt' = TxtIdx
              /\ IF TxtIdx = <<>> THEN out' = [i \in 1..Len(page) |-> [k |-> "item", i |-> i]] /\ pc' = "done" /\ UNCHANGED k
                                   /\ EmitDone(out')
                          ELSE pc' = "chars" /\ k' = 2 /\ UNCHANGED out
-             /\ UNCHANGED <<P, wh, page, bc, cur, lines, emp, tl, bmap, bxs, tb, ord, nodes, heap, pl, dn>>
+             /\ UNCHANGED <<P, wh, tie, page, bc, cur, lines, emp, tl, bmap, bxs, tb, ord, nodes, heap, pl, dn>>
 
 \* ------------------------------------------------------------------ group_objects
 HA(i, j) == Halign(GB(i), GB(j), P)
 VA(i, j) == P.dv /\ Valign(GB(i), GB(j), P)
 GOBranch == Branch(cur, HA(k - 1, k), VA(k - 1, k))
 Add(L, i) == LineAdd(L, i, GB(i), P)
-GOFrame == UNCHANGED <<P, wh, txt, page, bc, pc, emp, tl, bmap, bxs, tb, ord, nodes, heap, pl, dn, out>>
+GOFrame == UNCHANGED <<P, wh, tie, txt, page, bc, pc, emp, tl, bmap, bxs, tb, ord, nodes, heap, pl, dn, out>>
 GOAppend == /\ pc = "chars" /\ k <= N /\ GOBranch = "append"
             /\ cur' = Add(cur, k) /\ k' = k + 1 /\ UNCHANGED lines /\ GOFrame
 GOYield  == /\ pc = "chars" /\ k <= N /\ GOBranch = "yield"
@@ -154,7 +154,7 @@ GOSingle == /\ pc = "chars" /\ k <= N /\ GOBranch = "single"
 GOFlush  == /\ pc = "chars" /\ k > N
             /\ lines' = Append(lines, IF cur.o = "N" THEN Add(NewLine("H"), N) ELSE cur)
             /\ cur' = NoLine /\ pc' = "empties"
-            /\ UNCHANGED <<P, wh, txt, page, bc, k, emp, tl, bmap, bxs, tb, ord, nodes, heap, pl, dn, out>>
+            /\ UNCHANGED <<P, wh, tie, txt, page, bc, k, emp, tl, bmap, bxs, tb, ord, nodes, heap, pl, dn, out>>
 
 \* ------------------------------------------------------------------ fsplit(is_empty); empties analysed
 SplitEmpties ==
@@ -163,20 +163,20 @@ SplitEmpties ==
                Newline(SelectSeq(lines, LAMBDA L : LineIsEmpty(L, GT))[i])]
   /\ tl' = SelectSeq(lines, LAMBDA L : ~LineIsEmpty(L, GT))
   /\ bmap' = [l \in 1..Len(tl') |-> 0] /\ bxs' = <<>> /\ k' = 1 /\ pc' = "gtl"
-  /\ UNCHANGED <<P, wh, txt, page, bc, cur, lines, tb, ord, nodes, heap, pl, dn, out>>
+  /\ UNCHANGED <<P, wh, tie, txt, page, bc, cur, lines, tb, ord, nodes, heap, pl, dn, out>>
 
 \* ------------------------------------------------------------------ group_textlines
 GTLStep == /\ pc = "gtl" /\ k <= Len(tl)
            /\ LET r == MergeStep(k, Neighbors(tl, k, P.lm, PG, G), bmap, bxs) IN bmap' = r.bmap /\ bxs' = r.bxs
            /\ k' = k + 1
-           /\ UNCHANGED <<P, wh, txt, page, bc, pc, cur, lines, emp, tl, tb, ord, nodes, heap, pl, dn, out>>
+           /\ UNCHANGED <<P, wh, tie, txt, page, bc, pc, cur, lines, emp, tl, tb, ord, nodes, heap, pl, dn, out>>
 BoxOf(ls) == [o |-> tl[ls[1]].o, ls |-> ls, bb |-> UnionAll([i \in 1..Len(ls) |-> tl[ls[i]].bb]), idx |-> -1]
 \* "if not box.is_empty(): yield box" (LTComponent.is_empty: no width or no height)
 GTLCollect == /\ pc = "gtl" /\ k > Len(tl)
               /\ tb' = SelectSeq([i \in 1..Len(Collect(bmap)) |-> BoxOf(bxs[Collect(bmap)[i]])],
                                  LAMBDA b : ~(BW(b.bb) <= 0 \/ BH(b.bb) <= 0))
               /\ pc' = IF NoneFlow THEN "flat" ELSE "gtb0"
-              /\ UNCHANGED <<P, wh, txt, page, bc, k, cur, lines, emp, tl, bmap, bxs, ord, nodes, heap, pl, dn, out>>
+              /\ UNCHANGED <<P, wh, tie, txt, page, bc, k, cur, lines, emp, tl, bmap, bxs, ord, nodes, heap, pl, dn, out>>
 
 \* LTTextBox*.analyze: every line gets its newline, lines sorted by -y1 (-x1), stable
 LineLt(o, a, b) == IF o = "H" THEN tl[a].bb[4] > tl[b].bb[4] ELSE tl[a].bb[3] > tl[b].bb[3]
@@ -190,11 +190,11 @@ FlatSort == /\ pc = "flat"
             /\ tb' = AnalyzedBoxes /\ tl' = WithNewlines
             /\ ord' = StableSortBy(Ids(Len(tb)), LAMBDA a, b : NoneLt(tb[a], tb[b]))
             /\ pc' = IF "NoIndexFlowNone" \in Dev THEN "final" ELSE "flatindex"
-            /\ UNCHANGED <<P, wh, txt, page, bc, k, cur, lines, emp, bmap, bxs, nodes, heap, pl, dn, out>>
+            /\ UNCHANGED <<P, wh, tie, txt, page, bc, k, cur, lines, emp, bmap, bxs, nodes, heap, pl, dn, out>>
 \* intended: boxes are numbered in output order also without the group hierarchy
 FlatIndex == /\ pc = "flatindex"
              /\ tb' = [i \in 1..Len(tb) |-> [tb[i] EXCEPT !.idx = PosIn(ord, i) - 1]] /\ pc' = "final"
-             /\ UNCHANGED <<P, wh, txt, page, bc, k, cur, lines, emp, tl, bmap, bxs, ord, nodes, heap, pl, dn, out>>
+             /\ UNCHANGED <<P, wh, tie, txt, page, bc, k, cur, lines, emp, tl, bmap, bxs, ord, nodes, heap, pl, dn, out>>
 
 \* ------------------------------------------------------------------ group_textboxes
 NodeBoxes == [i \in 1..Len(nodes) |-> nodes[i].bb]
@@ -205,17 +205,20 @@ GTBInit == /\ pc = "gtb0"
            /\ heap' = {<<0, Dist(tb[q[1]].bb, tb[q[2]].bb), q[1], q[2]>> :
                         q \in {r \in (1..Len(tb)) \X (1..Len(tb)) : r[1] < r[2]}}
            /\ pl' = [i \in 1..Len(tb) |-> i] /\ dn' = {} /\ pc' = "gtb"
-           /\ UNCHANGED <<P, wh, txt, page, bc, k, cur, lines, emp, tl, bmap, bxs, tb, ord, out>>
+           /\ UNCHANGED <<P, wh, tie, txt, page, bc, k, cur, lines, emp, tl, bmap, bxs, tb, ord, out>>
+\* history flag (for the harness): some pop had more than one least entry with both members still in the plane,
+\* i.e. the id() tie-break mattered somewhere in this behaviour
+Tied == Cardinality({f \in MinEntries(heap) : f[3] \notin dn /\ f[4] \notin dn}) > 1
 GTBFrame == UNCHANGED <<P, wh, txt, page, bc, pc, k, cur, lines, emp, tl, bmap, bxs, tb, ord, out>>
 \* popped pair already merged away
 GTBDiscard == /\ pc = "gtb"
               /\ \E e \in MinEntries(heap) : (e[3] \in dn \/ e[4] \in dn) /\ heap' = heap \ {e}
-              /\ UNCHANGED <<nodes, pl, dn>> /\ GTBFrame
+              /\ UNCHANGED <<nodes, pl, dn, tie>> /\ GTBFrame
 \* something lies between the two: come back to the pair after every unobstructed one
 GTBRepush  == /\ pc = "gtb"
               /\ \E e \in MinEntries(heap) : /\ e[3] \notin dn /\ e[4] \notin dn /\ e[1] = 0 /\ IsAny(e[3], e[4])
                                              /\ heap' = (heap \ {e}) \cup {<<1, e[2], e[3], e[4]>>}
-              /\ UNCHANGED <<nodes, pl, dn>> /\ GTBFrame
+              /\ tie' = (tie \/ Tied) /\ UNCHANGED <<nodes, pl, dn>> /\ GTBFrame
 GTBMerge   == /\ pc = "gtb"
               /\ \E e \in MinEntries(heap) :
                    /\ e[3] \notin dn /\ e[4] \notin dn /\ (e[1] = 1 \/ ~IsAny(e[3], e[4]))
@@ -226,9 +229,9 @@ GTBMerge   == /\ pc = "gtb"
                                                  ch |-> <<e[3], e[4]>>, bb |-> gb])
                       /\ heap' = (heap \ {e}) \cup {<<0, Dist(gb, nodes[o].bb), g, o>> : o \in rest}
                       /\ dn' = dn \cup {e[3], e[4]} /\ pl' = Append(pl, g)
-              /\ GTBFrame
+              /\ tie' = (tie \/ Tied) /\ GTBFrame
 GTBEnd == /\ pc = "gtb" /\ heap = {} /\ pc' = "ganalyze"
-          /\ UNCHANGED <<P, wh, txt, page, bc, k, cur, lines, emp, tl, bmap, bxs, tb, ord, nodes, heap, pl, dn, out>>
+          /\ UNCHANGED <<P, wh, tie, txt, page, bc, k, cur, lines, emp, tl, bmap, bxs, tb, ord, nodes, heap, pl, dn, out>>
 
 \* group.analyze for every top-level group: boxes analysed, children of every group sorted by the flow key
 GroupLt(kd, a, b) == IF kd = "LRTB" THEN KeyLRTB(nodes[a].bb, P.bf) < KeyLRTB(nodes[b].bb, P.bf)
@@ -238,15 +241,15 @@ AnalyzeGroups == /\ pc = "ganalyze"
                                 IF nodes[i].ch = <<>> THEN nodes[i]
                                 ELSE [nodes[i] EXCEPT !.ch = StableSortBy(@, LAMBDA a, b : GroupLt(nodes[i].kd, a, b))]]
                  /\ tb' = AnalyzedBoxes /\ tl' = WithNewlines /\ pc' = "index"
-                 /\ UNCHANGED <<P, wh, txt, page, bc, k, cur, lines, emp, bmap, bxs, ord, heap, pl, dn, out>>
+                 /\ UNCHANGED <<P, wh, tie, txt, page, bc, k, cur, lines, emp, bmap, bxs, ord, heap, pl, dn, out>>
 \* IndexAssigner.run over the groups in plane order
 DFSOrder == Flat([i \in 1..Len(LiveSeq) |-> Leaves(LiveSeq[i])])
 AssignIndex == /\ pc = "index"
                /\ tb' = [i \in 1..Len(tb) |-> [tb[i] EXCEPT !.idx = PosIn(DFSOrder, i) - 1]] /\ pc' = "sortboxes"
-               /\ UNCHANGED <<P, wh, txt, page, bc, k, cur, lines, emp, tl, bmap, bxs, ord, nodes, heap, pl, dn, out>>
+               /\ UNCHANGED <<P, wh, tie, txt, page, bc, k, cur, lines, emp, tl, bmap, bxs, ord, nodes, heap, pl, dn, out>>
 SortBoxes == /\ pc = "sortboxes"
              /\ ord' = StableSortBy(Ids(Len(tb)), LAMBDA a, b : tb[a].idx < tb[b].idx) /\ pc' = "final"
-             /\ UNCHANGED <<P, wh, txt, page, bc, k, cur, lines, emp, tl, bmap, bxs, tb, nodes, heap, pl, dn, out>>
+             /\ UNCHANGED <<P, wh, tie, txt, page, bc, k, cur, lines, emp, tl, bmap, bxs, tb, nodes, heap, pl, dn, out>>
 
 \* self._objs = textboxes + otherobjs + empties
 Finish == /\ pc = "final"
@@ -254,11 +257,11 @@ Finish == /\ pc = "final"
                     \o [i \in 1..Len(OthIdx) |-> [k |-> "item", i |-> OthIdx[i]]]
                     \o [i \in 1..Len(emp) |-> [k |-> "empty", i |-> i]]
           /\ pc' = "done" /\ EmitDone(out')
-          /\ UNCHANGED <<P, wh, txt, page, bc, k, cur, lines, emp, tl, bmap, bxs, tb, ord, nodes, heap, pl, dn>>
+          /\ UNCHANGED <<P, wh, tie, txt, page, bc, k, cur, lines, emp, tl, bmap, bxs, tb, ord, nodes, heap, pl, dn>>
 
 Finished == pc = "done" /\ UNCHANGED vars
 
-Init == /\ P \in Params /\ wh \in Wheres /\ page = <<>> /\ txt = <<>> /\ pc = "build"
+Init == /\ P \in Params /\ wh \in Wheres /\ page = <<>> /\ txt = <<>> /\ tie = FALSE /\ pc = "build"
         /\ bc = [n |-> 0, pv |-> <<>>, ls |-> <<>>, top |-> <<>>, xmax |-> 0]
         /\ k = 0 /\ cur = NoLine /\ lines = <<>> /\ emp = <<>> /\ tl = <<>> /\ bmap = <<>> /\ bxs = <<>>
         /\ tb = <<>> /\ ord = <<>> /\ nodes = <<>> /\ heap = {} /\ pl = <<>> /\ dn = {} /\ out = <<>>
